@@ -84,8 +84,15 @@ class SeriesOps:
             return s.with_term(T.ite(M.as_ser_term(arg0), M.as_ser_term(other), s.term))
         if name in ("apply", "map"):
             return self._series_apply(s, arg0 if pos else kw.get("func", kw.get("arg")), node)
+        if name == "rename" and (pos and isinstance(pos[0], str) or isinstance(kw.get("index"), str)) and not kw.get("inplace"):
+            r = Ser(s.term, s.ctx, s.frame, pos[0] if pos else kw.get("index"), s.positional)
+            r.renamed_from = getattr(s, "renamed_from", s.name)          # the column it was taken from (for to_frame / DataFrame(series))
+            return r
         if name in ("copy", "rename", "squeeze", "infer_objects", "convert_dtypes"):
-            return Ser(s.term, s.ctx, s.frame, s.name, s.positional)
+            r = Ser(s.term, s.ctx, s.frame, s.name, s.positional)
+            if hasattr(s, "renamed_from"):
+                r.renamed_from = s.renamed_from
+            return r
         if name in ("to_numpy", "to_list", "tolist"):
             if name == "to_numpy":
                 return Ser(s.term, s.ctx, s.frame, s.name, positional=True)
@@ -107,7 +114,7 @@ class SeriesOps:
         if name == "reset_index":
             return Ser(s.term, s.ctx, s.frame, s.name)
         if name == "to_frame":
-            return s.frame.derive() if s.frame is not None else Frame(("to_frame", s.term, s.ctx))
+            return self._series_to_frame(s, pos[0] if pos and isinstance(pos[0], str) else kw.get("name"), node)
         if name == "items":
             return ("series_items", s.term, s.ctx)
         if name == "union":
@@ -139,6 +146,24 @@ class SeriesOps:
             col = values.col(cn[0]) if cn and len(cn) == 1 else ("allcols",)
             return ("in", t, ("valuesof", col, values.ctx()))
         return ("in", t, to_term(values))
+
+    def _series_to_frame(self, s: Ser, name, node) -> Frame:
+        """Series.to_frame(name) / pd.DataFrame(series): one column, named after the series, same rows and index"""
+        if s.frame is None:
+            return Frame(("to_frame", s.term, s.ctx))
+        g = s.frame.derive()
+        new = name if isinstance(name, str) else s.name
+        old = getattr(s, "renamed_from", s.name)
+        if isinstance(new, str) and isinstance(old, str) and new != old:
+            g.cols.pop(old, None)
+            g.dropped.add(old)
+            if g.known is not None and old in g.known:
+                g.known[g.known.index(old)] = new
+            g.setcol(new, s.term)
+            self.log("rename", node, src=s.frame.obj, dst=g.obj, mapping={old: new})
+        elif isinstance(new, str):
+            g.setcol(new, s.term)
+        return g
 
     def _series_apply(self, s: Ser, fn: Any, node) -> Ser:
         if isinstance(fn, FuncRef):
@@ -425,7 +450,7 @@ class SeriesOps:
     def make_frame(self, data: Any, kw, node, name: str) -> Frame:
         base = ("newframe", self.I.new_id())
         if isinstance(data, Ser) and data.frame is not None:
-            g = data.frame.derive()
+            g = self._series_to_frame(data, None, node) if hasattr(data, "renamed_from") else data.frame.derive()
             self.log("frame-from-series", node, dst=g.obj)
             return g
         if isinstance(data, Frame):
